@@ -99,7 +99,7 @@ PROPS["C15"] = dict(
     },
     trusted=COMMON_TRUST + PATH_TRUST + ["R5 shims in is_excluded (assumed std::path/str contracts, validated by the twin run)"],
     assumptions=[],
-    not_decided=["--dry-run of `sync -r` returns inside tokio orchestration (run_local/run_remote) that is outside reach: undecided",
+    not_decided=[
                  "'printed actions == performed actions' is a statement about two runs; not decided",
                  "bisync --dry-run: see the world-model unit (added when the bisync units are registered)"],
 )
@@ -284,6 +284,10 @@ PROPS["C06"] = _bisync({
 }, ignore={"run_bisync": [r"conflict_names_free", r"conflict_name_not_planned"], "copy_atomic": [r"synced", r"is_staging\(asp\(from\)\)"]},
    only_re=r"\(C06\)", not_decided=["post-run A == B == archive.entries as one whole-tree equality (cross-path frame, L2) is not mechanised; it is exercised by the history twin only", "A/B symmetry lemma not mechanised"])
 PROPS["C15"]["units"].append(dict(template="units/bisync.rs", slice=["run_bisync"], ignore_clauses={"run_bisync": [r"record_ok", r"conflict_names_free", r"conflict_name_not_planned"]}))
+PROPS["C15"]["twins"].append(dict(name="dry_run_inert", repo_fn="src/bin/copia/incremental.rs run_local / run_remote with --dry-run", quick=1, thorough=1, needs_cli=True,
+    bounded="'the printed actions are exactly the performed ones' is a statement about the program's OUTPUT, which no contract here models (print macros are dropped, rule R3): this run stands in for that clause (that a dry run CHANGES nothing is proved: unit runsync). Bound: ONE tree (17 awkward names x 4 destination states, 14 sibling names, 4 stale files), 5 flag sets, 3 directions = 15 real runs with --dry-run",
+    contract="`copia sync -r --dry-run` (local, pull, push through an ssh stand-in): no file, mtime or directory of either tree changes, nothing in the working directory changes, and stdout names - one per line - exactly the paths a real run from that state sends or deletes (the plan as the property defines it), and no other path of either tree"))
+PROPS["C15"]["fallback_searches"].append("dry_run")
 PROPS["C15"]["clauses"]["bisync --dry-run"] = "run_bisync: opts.dry_run ==> the world (files and effect log) is unchanged"
 PROPS["C15"]["trusted"] = COMMON_TRUST + PATH_TRUST + WORLD_TRUST
 
@@ -371,7 +375,7 @@ PROPS["C09"] = dict(
     },
     trusted=ONEWAY_TRUST,
     assumptions=["process kill, not power loss (no fsync is demanded)", "source files do not change during the run", "destination names ending in .copia-tmp are reserved"],
-    not_decided=["run_local / run_remote orchestration (tokio::spawn, Semaphore, join_handles, the delete phase) is not under contract: 'files outside the plan are unchanged' is proved per delivery (frame clause) and exercised end-to-end by the crash oracle only",
+    not_decided=["inside the orchestration region of run_local / run_remote (tokio::spawn, Semaphore, join_handles) nothing is proved: it is summarised by an assumed contract built from the per-delivery contracts; around it, 'files outside the plan are unchanged' is proved for the whole run (unit runsync)",
                  "push: no contract can state what the remote shell does; bounded fault enumeration stands in (H13 was found and fixed there)",
                  "'running the same command again yields the uninterrupted result' is a two-run statement: crash oracle only"],
 )
@@ -433,11 +437,21 @@ PROPS["C14"] = dict(
 
 
 # ---- C04: a recursive one-way sync delivers exactly its plan ----
+RUNSYNC_TRUST = [
+    "ORCHESTRATION REGION SUMMARY (ASSUMED): in run_local / run_remote the statements from `let semaphore = Arc::new(Semaphore::new(..))` to `join_handles(handles).await` (tokio::spawn of one async block per planned file) are replaced by ONE call of run_deliveries_local / run_deliveries_remote, whose contract states what every interleaving of the spawned calls satisfies by the PROVED contracts of deliver_local / deliver_pull (each new local effect is a delivery effect of one planned path; no path other than <dst>/<rel> and its staging sibling changes) and, for push, that each task sends ONE remote delivery command for <remote_root>/<rel> and has no local effect. That tokio runs each spawned task once and nothing else in the region touches either side is trusted; a change INSIDE the region is not seen by Verus (the bounded runs and the crash oracle see it)",
+    "the tree scans by contract: discover_local_with_meta(root) / discover_remote_with_meta(host, root) are read-only and are functions of (tree, root) resp. (host, root) - total or failing; nothing about their content is assumed (the plan is defined over whatever they returned). The remote listing command is read-only and therefore not an entry of the remote command log",
+    "collect_dirs, report (prints), TransferProgress (opaque), Instant::now (R5 shim instant_now), Result::unwrap_or_default on a MetaMap (R5 shim meta_or_empty), `x.display().to_string()` => opaque text: no file-system access (ASSUMED)",
+    "remote command log extended by the variant Deliver{host, path}: one `cat > tmp && [ size ] && mv` command of transfer_file_to_remote (the shell itself has no contract: C09's push clause is decided by the crash oracle)",
+]
+_RS_C15 = {"run_local": [r"planned_eff", r"planned_path", r"planned_cmd", r"^\s*log_extends", r"^\s*dir is P"], "run_remote": [r"planned_eff", r"planned_path", r"planned_cmd", r"^\s*log_extends", r"^\s*dir is P"]}
+_RS_C04 = {"run_local": [r"opts\.dry_run ==>", r"!opts\.delete ==>"], "run_remote": [r"opts\.dry_run ==>", r"!opts\.delete ==>"]}
+
 PROPS["C04"] = dict(
     level="proof",
     units=[dict(template="units/planrun.rs", slice=["*"]),
            dict(template="units/plan.rs", slice=["build_plan", "needs_transfer", "is_excluded", "glob_match"]),
-           dict(template="units/oneway.rs", slice=["deliver_local", "deliver_pull", "tmp_path", "create_local_dirs"])],
+           dict(template="units/oneway.rs", slice=["deliver_local", "deliver_pull", "tmp_path", "create_local_dirs"]),
+           dict(template="units/runsync.rs", slice=["run_local", "run_remote"], ignore_clauses=_RS_C04)],
     kani=[dict(harness="c19_needs_transfer_is_quick_check", repo_fn="src/bin/copia/plan.rs needs_transfer", desc="needs_transfer(src, dst) == (dst absent or size differs or whole-second mtime differs), all inputs")],
     twins=[dict(name="delivers_plan", repo_fn="src/bin/copia/incremental.rs run_local/run_remote (whole run)", quick=1, thorough=1, needs_cli=True,
                 contract="`copia sync -r` on the real binary, three directions (ssh stand-in) x five flag sets ({}, --delete, --delete --exclude '*.log', --exclude 'sub dir', --delete -j 4), one tree of 15 awkward names (spaces, both quotes, backslash, $, glob characters, leading dash, unicode, NEWLINES in a file name, a directory name and a stale name, nesting, dot file) in the four destination states {absent, same size+mtime, other size, other mtime} plus four destination-only files: exit 0; the destination equals the plan of the property statement (planned files byte-identical with the source's whole-second mtime, matched files left exactly as they were, with --delete exactly the non-excluded destination-only files removed); the source is unmodified; no staging file remains; two bystander files in the (remote) working directory are untouched",
@@ -450,14 +464,26 @@ PROPS["C04"] = dict(
         "deliver_local / deliver_pull": "one delivery changes only its destination path and the staging sibling; Ok ==> dst holds the source bytes and the planned mtime (shared with C09/C14)",
         "apply_remote_deletes": "pull: the only effects are Unlink(local_root/rel) for rel in the delete list, nothing else changes, no remote command; push: exactly ONE remote command, whose argument list - as xargs cuts it at the delimiter its command names - is exactly [remote_root/rel | rel in the delete list] (no entry can be split: the delimiter is NUL and no name contains NUL)",
         "create_remote_dirs": "at most ONE remote command; it creates exactly remote_root and remote_root/dir for the planned directories",
+        "run_local / run_remote (the driver)": "every local effect of a run is a directory creation, a delivery effect (write staging / rename staging -> dst / touch dst) of a path p with want_transfer(p), or - only with --delete - Unlink(<dst>/p) with want_delete(p); every mutating remote command is a Mkdir, ONE delivery of <remote_root>/p with want_transfer(p), or - only with --delete - ONE Rm whose arguments are <remote_root>/p for want_delete(p); want_transfer / want_delete are the property's set definitions over the two listings (build_plan's proved contract links the plan to them); push has no local effect, pull sends no mutating command; a path that belongs to no planned action is unchanged (frame, local runs)",
     },
-    trusted=ONEWAY_TRUST + [
+    trusted=ONEWAY_TRUST + RUNSYNC_TRUST + [
         "the remote shell is not Rust: ASSUMED only that xargs cuts its input at the delimiter named on its command line and that `rm -f --` / `mkdir -p` act on exactly those arguments (R5 shim ssh_xargs; the delimiter and verb are read off the command string literal by the replacement rule)",
         "R3' shims first_entry / push_list_entry for format!/write! as concatenation; display(p) contains no NUL byte (OS rule)",
         "PATH_TRUST: std::path component grammar for is_excluded (validated by its twin under C15/C19)",
     ],
     assumptions=["remote_root (a command-line argument) contains neither NUL nor newline", "mtimes at or after the epoch; names ending in .copia-tmp are reserved"],
-    not_decided=["run_local / run_remote themselves (task spawning, job count, completion order, the report) are not under contract: that every planned file is delivered and nothing else is touched END TO END is exercised by the bounded twin only",
+    not_decided=["inside the orchestration region of run_local / run_remote (task spawning, job count, completion order) nothing is proved - it is summarised by an assumed contract; that every planned file IS delivered (liveness of the spawned tasks, the report) END TO END is exercised by the bounded twin only",
                  "transfer_file_to_remote / transfer_file_from_remote command strings ($'..' quoting of awkward names): twin only",
                  "host:path parsing in main.rs is not under contract"],
 )
+
+
+# ---- the recursive one-way driver (unit runsync): C15 dry run / no removal without --delete; C04 + C09 'nothing outside the plan' ----
+PROPS["C15"]["units"].append(dict(template="units/runsync.rs", slice=["run_local", "run_remote", "print_plan"], ignore_clauses=_RS_C15))
+PROPS["C15"]["clauses"]["sync -r --dry-run (run_local, run_remote)"] = "opts.dry_run ==> no file-system effect at all (files and effect log unchanged) and no mutating remote command - local, pull and push; print_plan (extracted) has no access to either"
+PROPS["C15"]["clauses"]["no removal without --delete (run_local, run_remote)"] = "!opts.delete ==> no Unlink among the run's local effects and no Rm among its remote commands"
+PROPS["C15"]["trusted"] = PROPS["C15"]["trusted"] + ONEWAY_TRUST + RUNSYNC_TRUST
+PROPS["C15"]["fallback_searches"].append("run_local")
+PROPS["C09"]["units"].append(dict(template="units/runsync.rs", slice=["run_local", "run_remote"], ignore_clauses=_RS_C04))
+PROPS["C09"]["clauses"]["run_local / run_remote: files outside the plan"] = "every local effect of the whole run is a directory creation, a delivery effect of a planned path or (with --delete) the unlink of a planned path; a path that belongs to no planned action is unchanged; push has no local effect (modulo the assumed summary of the orchestration region)"
+PROPS["C09"]["trusted"] = ONEWAY_TRUST + RUNSYNC_TRUST
